@@ -90,6 +90,47 @@ def grid_search_model(which):
     return out
 
 
+def impl_grid_search():
+    """the implementation itself (the two folders in /repo, called in a subprocess) against the documented
+    run-time arithmetic on the boundary grid, inside the proved domain"""
+    import subprocess
+    code = (
+        "import sys, json; sys.path.insert(0, %r)\n"
+        "from dsl_compiler.src.lowering.constant_folder import ConstantFolder\n"
+        "from dsl_compiler.src.ir.optimizer import ConstantPropagationOptimizer\n"
+        "B = %r\n"
+        "out = []\n"
+        "o = ConstantPropagationOptimizer()\n"
+        "for op in ['+','-','*','/','%%','**','<<','>>','AND','OR','XOR']:\n"
+        "  for a in B:\n"
+        "    for b in B:\n"
+        "      if op == '**' and not (0 <= b <= 6): continue\n"
+        "      try: v = ConstantFolder.fold_binary_operation(op, a, b, None, None)\n"
+        "      except Exception as e: v = 'error'\n"
+        "      try: w = o._fold_arithmetic('^' if op == '**' else op, a, b)\n"
+        "      except Exception as e: w = 'error'\n"
+        "      out.append([op, a, b, v, w])\n"
+        "print(json.dumps(out))\n" % (H.REPO, BOUND))
+    p = subprocess.run(["/venv/bin/python", "-c", code], capture_output=True, text=True, timeout=300)
+    try:
+        rows = json.loads(p.stdout)
+    except Exception:  # noqa: BLE001
+        return []
+    out = []
+    seen = set()
+    for op, a, b, v, w in rows:
+        if not in_domain(op, a, b) or op in seen:
+            continue
+        want = fa.arith(op, a, b)
+        if v != want:
+            out.append((op, a, b))
+            seen.add(op)
+        elif w is not None and w != want:
+            out.append(("ir", op, a, b))
+            seen.add(op)
+    return out
+
+
 def run(tier, seed, t0):
     rep = Report(PROP, tier, seed, t0)
     ok, bad, out = build_or_report(rep, FILES)
@@ -100,6 +141,8 @@ def run(tier, seed, t0):
         cands = []
         if not any(b[0] == "translator" for b in bad):
             cands = grid_search_model("ast_fold") + [("ir",) + c for c in grid_search_model("ir_fold_arith")]
+        if not cands:
+            cands = impl_grid_search()
         confirmed = None
         for c in cands:
             if c[0] == "ir":
